@@ -14,7 +14,8 @@
 EXTENDS Handler, Json
 
 CONSTANTS F,          \* the focus party
-          Emit        \* TRUE: print every terminal history (for replay)
+          Emit,       \* TRUE: print every terminal history (for replay)
+          BadFrom, BadRd, BadB   \* the slot <<sender, round, broadcast?>> whose message fails verification ("none": no such slot)
 
 VARIABLES hist, got
 lvars == <<vars, hist, got>>
@@ -27,7 +28,14 @@ HonestView(r) == [k \in 1..(r-2) |-> IF (k+1) \in ShapeB THEN AllH ELSE NoVH]
 \* the slots F expects: <<sender, round, broadcast?>>
 Slots == {<<j, r, TRUE>> : j \in Others, r \in ShapeB} \cup {<<j, r, FALSE>> : j \in Others, r \in ShapeM}
 
-MsgFor(sl) == Hdr(sl[1], IF sl[3] THEN "all" ELSE F, sl[2], sl[3], "h", HonestBv(sl[2]), HonestView(sl[2]))
+\* Bad mode: one peer's message of one slot does not verify (every other message is honest).  Every causal delivery order
+\* is enumerated again; the focus party must end with an error that names exactly that peer - whether the message is met
+\* on arrival or, having arrived early, when its round is entered - and the enumeration stops there (what happens after
+\* the end is the subject of the lifecycle checks).
+BadMode == BadFrom # "none"
+IsBad(sl) == BadMode /\ sl = <<BadFrom, BadRd, BadB>>
+MsgFor(sl) == Hdr(sl[1], IF sl[3] THEN "all" ELSE F, sl[2], sl[3], IF IsBad(sl) THEN "bad" ELSE "h", HonestBv(sl[2]), HonestView(sl[2]))
+Live == BadMode => st[F] = "run"
 
 LInit == Init /\ hist = <<>> /\ got = {}
 
@@ -42,7 +50,7 @@ Item(sl, kind) == [from |-> sl[1], rd |-> sl[2], b |-> sl[3], kind |-> kind]
 
 \* first delivery of an expected message, as early as causality allows
 Deliver(sl) ==
-  /\ st[F] # "new" /\ sl \in Slots \ got
+  /\ st[F] # "new" /\ sl \in Slots \ got /\ Live
   /\ sl[2] <= rnd[F] + 1
   /\ Step(MsgFor(sl))
   /\ got' = got \cup {sl}
@@ -51,7 +59,7 @@ Deliver(sl) ==
 
 \* a copy of a message delivered before: a duplicate, or - if its round has passed - a stale message
 Again(sl) ==
-  /\ dup < MaxDup /\ sl \in got
+  /\ dup < MaxDup /\ sl \in got /\ Live
   /\ Step(MsgFor(sl))
   /\ dup' = dup + 1
   /\ hist' = Append(hist, Item(sl, "dup"))
@@ -60,7 +68,7 @@ Again(sl) ==
 \* a message of another session / protocol, or for another recipient, shaped like an expected one
 ForeignKinds == {"wrongSSID", "wrongProto", "readdress"}
 Alien(sl, cls) ==
-  /\ frn < MaxForeign /\ st[F] # "new" /\ sl \in Slots /\ cls \in ForeignKinds
+  /\ frn < MaxForeign /\ st[F] # "new" /\ sl \in Slots /\ cls \in ForeignKinds /\ Live
   /\ (cls = "readdress" => ~sl[3])
   /\ LET m0 == MsgFor(sl)
          m == IF cls = "readdress" THEN [m0 EXCEPT !.to = CHOOSE k \in Others : k # sl[1]] ELSE [m0 EXCEPT !.cls = cls]
@@ -84,6 +92,13 @@ LDoneWhenAll == AllDelivered => st[F] = "done"
 LNoEarlyDone == st[F] = "done" => AllDelivered
 LProgress == <>(st[F] = "done")
 
+\* bad mode: the party never completes, and its error names the sender of the failing message, nobody else
+LBadNeverDone == BadMode => st[F] # "done"
+LBadBlamed == (BadMode /\ st[F] = "err") => (ek[F] = "detected" /\ culp[F] = {BadFrom})
+LBadEnds == BadMode => <>(st[F] = "err")
+
 \* export: one JSON line per complete history (budgets need not be used up)
-EmitHist == (Emit /\ AllDelivered) => PrintT(<<"HIST", ToJson(hist)>>)
+EmitHist == (Emit /\ ~BadMode /\ AllDelivered) => PrintT(<<"HIST", ToJson(hist)>>)
+EmitBad == (Emit /\ BadMode /\ st[F] = "err") =>
+   PrintT(<<"HISTB", ToJson([items |-> hist, post |-> [st |-> st[F], ek |-> ek[F], culp |-> culp[F], rnd |-> rnd[F]]])>>)
 =============================================================================
